@@ -97,6 +97,14 @@ def _contract(state: Any) -> dict[str, Any]:
         res["bytes"][fmt] = {"len": len(b1), "sha": hashlib.sha1(b1).hexdigest()[:16]}
         if b1 != b2:
             res["idem"][f"same-tree-twice:{fmt}"] = _bytes_diff(b1, b2)
+    if "json" in first:
+        # digest of the JSON form with *fresh* type variable ids (positive raw id, empty namespace: allocated from the
+        # process-global counter TypeVarId.next_raw_id) renumbered in order of first appearance; lets the parent tell
+        # "same interface up to the numbering of fresh type variables" from any other difference between two builds
+        try:
+            res["bytes"]["json"]["sha_fresh_ids_renumbered"] = _alpha_sha(first["json"])
+        except Exception:
+            pass
     plugin_data = manager.plugin.report_config_data(ReportConfigContext(mid, state.path, is_check=False))
     own = "binary" if manager.options.fixed_format_cache else "json"
     if own in first:
@@ -169,6 +177,28 @@ def _contract(state: Any) -> dict[str, Any]:
         except BaseException as e:
             res["raises"]["flagvec"] = {"key": _exc_key(e), "tb": traceback.format_exc()[-2500:]}
     return res
+
+
+def _alpha_sha(js: bytes) -> str:
+    import hashlib
+    doc = json.loads(js)
+    ren: dict[int, int] = {}
+    todo = [doc]
+    # deterministic traversal: dict keys sorted, lists in order (iterative, explicit stack in reverse)
+    while todo:
+        x = todo.pop()
+        if isinstance(x, dict):
+            if x.get(".class") in ("TypeVarType", "ParamSpecType", "TypeVarTupleType") and isinstance(x.get("id"), int) \
+                    and x["id"] > 0 and x.get("namespace", "") == "":
+                x["id"] = ren.setdefault(x["id"], 1_000_000 + len(ren))
+            for k in sorted(x, reverse=True):
+                if isinstance(x[k], (dict, list)):
+                    todo.append(x[k])
+        elif isinstance(x, list):
+            for v in reversed(x):
+                if isinstance(v, (dict, list)):
+                    todo.append(v)
+    return hashlib.sha1(json.dumps(doc, sort_keys=True).encode()).hexdigest()[:16]
 
 
 def _bytes_diff(a: bytes, b: bytes, fmt: str = "") -> dict[str, Any]:
